@@ -584,6 +584,70 @@ func rootIdent(e ast.Expr) (*ast.Ident, string) {
 
 func collectFieldWrites(pi *pkgInfo, fd *ast.FuncDecl, fn string) {
 	ps := paramObjs(pi, fd)
+	// locals that point INTO an object reachable from the receiver / a pointer parameter: range variables over such
+	// slices of pointers, and variables assigned from such paths (to a fixpoint: nested ranges)
+	derived := map[types.Object]string{}
+	rootPath := func(e ast.Expr) (string, bool) {
+		id, path := rootIdent(e)
+		if id == nil {
+			return "", false
+		}
+		o := pi.info.Uses[id]
+		if o == nil {
+			o = pi.info.Defs[id]
+		}
+		if what, ok := ps[o]; ok && refLike(o.Type()) {
+			return what + path, true
+		}
+		if dp, ok := derived[o]; ok {
+			return dp + path, true
+		}
+		return "", false
+	}
+	for changed := true; changed; {
+		changed = false
+		ast.Inspect(fd.Body, func(n ast.Node) bool {
+			switch x := n.(type) {
+			case *ast.RangeStmt:
+				if v, ok := x.Value.(*ast.Ident); ok && v.Name != "_" {
+					if o := pi.info.Defs[v]; o != nil && refLike(o.Type()) {
+						if rp, ok := rootPath(x.X); ok {
+							if _, had := derived[o]; !had {
+								derived[o] = rp + "[]"
+								changed = true
+							}
+						}
+					}
+				}
+			case *ast.AssignStmt:
+				if len(x.Lhs) == len(x.Rhs) {
+					for i, l := range x.Lhs {
+						id, ok := l.(*ast.Ident)
+						if !ok {
+							continue
+						}
+						o := pi.info.Defs[id]
+						if o == nil || !refLike(o.Type()) {
+							continue
+						}
+						r := x.Rhs[i]
+						if u, ok := r.(*ast.UnaryExpr); ok && u.Op == token.AND {
+							r = u.X
+						}
+						if rp, ok := rootPath(r); ok && rp != "" {
+							if _, isParam := ps[o]; !isParam {
+								if _, had := derived[o]; !had {
+									derived[o] = rp
+									changed = true
+								}
+							}
+						}
+					}
+				}
+			}
+			return true
+		})
+	}
 	seen := map[string]bool{}
 	emit := func(path, how string) {
 		k := path + "|" + how
@@ -599,27 +663,25 @@ func collectFieldWrites(pi *pkgInfo, fd *ast.FuncDecl, fn string) {
 				if _, isId := l.(*ast.Ident); isId {
 					continue
 				}
-				if id, path := rootIdent(l); id != nil {
-					if what, ok := ps[pi.info.Uses[id]]; ok && refLike(pi.info.Uses[id].Type()) {
-						emit(what+path, "assign")
-					}
+				if rp, ok := rootPath(l); ok {
+					emit(rp, "assign")
 				}
 			}
 		case *ast.IncDecStmt:
-			if id, path := rootIdent(x.X); id != nil && path != "" {
-				if what, ok := ps[pi.info.Uses[id]]; ok && refLike(pi.info.Uses[id].Type()) {
-					emit(what+path, "assign")
+			if _, isId := x.X.(*ast.Ident); !isId {
+				if rp, ok := rootPath(x.X); ok {
+					emit(rp, "assign")
 				}
 			}
 		case *ast.CallExpr:
 			// a pointer-receiver method called on (a field of) a receiver / pointer parameter
 			if se, ok := x.Fun.(*ast.SelectorExpr); ok {
 				if sel, ok := pi.info.Selections[se]; ok && sel.Kind() == types.MethodVal {
-					if id, path := rootIdent(se.X); id != nil && path != "" {
-						if what, ok := ps[pi.info.Uses[id]]; ok && refLike(pi.info.Uses[id].Type()) {
+					if _, isId := se.X.(*ast.Ident); !isId {
+						if rp, ok := rootPath(se.X); ok {
 							if sig, ok := sel.Obj().Type().(*types.Signature); ok && sig.Recv() != nil {
 								if _, ptr := sig.Recv().Type().(*types.Pointer); ptr {
-									emit(what+path, "call:"+se.Sel.Name)
+									emit(rp, "call:"+se.Sel.Name)
 								}
 							}
 						}
